@@ -18,6 +18,8 @@ DIM_POOLS = [
     ["z", "x", "y", "w"],
     ["y", "z", "x", "t"],
     ["p", "q", "r", "s"],
+    ["V", "T", "f", "E"],  # axes that are not lengths (a voltage sweep, a temperature ...)
+    ["k_x", "k_y", "k_z", "k_t"],  # a mesh that already lives in Fourier space
 ]
 UNIT_POOLS = [None, ["m", "m", "m", "m"], ["nm", "s", "K", "T"], ["u0", "u1", "u2", "u3"]]
 
@@ -477,7 +479,7 @@ def rand_bc(rng, dim_names, p_none=0.5):
     single-character dimension names (only those can be periodic)."""
     if rng.random() < p_none:
         return ""
-    single = [d for d in dim_names if len(d) == 1]
+    single = [d for d in dim_names if len(d) == 1 and d.islower()]  # Mesh lower-cases bc strings
     opts = ["neumann", "dirichlet"]
     if single:
         k = int(rng.integers(1, len(single) + 1))
